@@ -270,6 +270,20 @@ theorem runStepWith_keeps (G : CtxRel W R) (d : StepDef) (body : Body) (callee :
   | ok => exact G.trans (hin s) (G.trans h1 (hout s1))
   | _ => exact G.trans (hin s) h1
 
+/-- the whole of `Step.run_step`, the `description` notification included: an error formatting the
+    description is raised from the state with the `in` arguments set, nothing else touched. -/
+theorem runStepDescribed_keeps (G : CtxRel W R) (d : StepDef) (body : Body) (callee : CofCfg → Body) (fuel : Nat)
+    (hsave : ∀ s e sw, R s (saveError d s e sw).1)
+    (hb : Keeps R body) (hc : ∀ c, Keeps R (callee c))
+    (hkey : ∀ s s1 c, body s = (s1, .call c) → c.key ∉ W)
+    (hin : ∀ s, R s (setIn d s)) (hout : ∀ s, R s (unsetIn d s)) :
+    Keeps R (runStepDescribed d body callee fuel) := by
+  intro s
+  unfold runStepDescribed
+  split
+  · exact G.trans (hin s) (rel_raiseExc G _ _)
+  · exact runStepWith_keeps G d body callee fuel hsave hb hc hkey hin hout s
+
 /-! ### the two instances for `runErrors` -/
 
 /-- "the `runErrors` value is untouched". -/
